@@ -353,8 +353,12 @@ where
 		tx_id_string = tx_id.to_string();
 	} else if let Some(tx_slate_id) = tx_slate_id {
 		tx_id_string = tx_slate_id.to_string();
+	} else {
+		// a request that names no transaction (without a filter the look-up below returns
+		// every entry, and a log holding a single entry would have that entry cancelled)
+		return Err(Error::TransactionDoesntExist(tx_id_string));
 	}
-	let tx_vec = updater::retrieve_txs(
+	let mut tx_vec = updater::retrieve_txs(
 		wallet,
 		tx_id,
 		tx_slate_id,
@@ -362,27 +366,46 @@ where
 		Some(&parent_key_id),
 		false,
 	)?;
-	if tx_vec.len() != 1 {
+	if tx_vec.len() > 1 && tx_id.is_none() {
+		// One slate id can stand for several entries of an account: the two halves of a
+		// self-send, or an earlier, already cancelled attempt next to the one that is pending
+		// now. The request then means the entries that are still pending.
+		tx_vec.retain(|t| {
+			!t.confirmed
+				&& match t.tx_type {
+					TxLogEntryType::TxSent
+					| TxLogEntryType::TxReceived
+					| TxLogEntryType::TxReverted => true,
+					_ => false,
+				}
+		});
+		if tx_vec.is_empty() {
+			return Err(Error::TransactionNotCancellable(tx_id_string));
+		}
+	} else if tx_vec.len() != 1 {
 		return Err(Error::TransactionDoesntExist(tx_id_string));
 	}
-	let tx = tx_vec[0].clone();
-	match tx.tx_type {
-		TxLogEntryType::TxSent | TxLogEntryType::TxReceived | TxLogEntryType::TxReverted => {}
-		_ => return Err(Error::TransactionNotCancellable(tx_id_string)),
+	for tx in tx_vec.iter() {
+		match tx.tx_type {
+			TxLogEntryType::TxSent | TxLogEntryType::TxReceived | TxLogEntryType::TxReverted => {}
+			_ => return Err(Error::TransactionNotCancellable(tx_id_string)),
+		}
+		if tx.confirmed {
+			return Err(Error::TransactionNotCancellable(tx_id_string));
+		}
 	}
-	if tx.confirmed {
-		return Err(Error::TransactionNotCancellable(tx_id_string));
+	for tx in tx_vec {
+		// get outputs associated with tx
+		let res = updater::retrieve_outputs(
+			wallet,
+			keychain_mask,
+			false,
+			Some(tx.id),
+			Some(&parent_key_id),
+		)?;
+		let outputs = res.iter().map(|m| m.output.clone()).collect();
+		updater::cancel_tx_and_outputs(wallet, keychain_mask, tx, outputs, parent_key_id)?;
 	}
-	// get outputs associated with tx
-	let res = updater::retrieve_outputs(
-		wallet,
-		keychain_mask,
-		false,
-		Some(tx.id),
-		Some(&parent_key_id),
-	)?;
-	let outputs = res.iter().map(|m| m.output.clone()).collect();
-	updater::cancel_tx_and_outputs(wallet, keychain_mask, tx, outputs, parent_key_id)?;
 	Ok(())
 }
 
